@@ -789,10 +789,10 @@ func c07R12(c *Ctx) {
 	}
 	c.R.Ob(rule, "NewConsensusState:no-step-logged-by-constructor", ok, c.Pos(at), fname(f), "updateToState runs with the WAL already open: every restart appends another `#HEIGHT: h` marker; after a rotation the newest one hides the records of the height in the rotated file from the replay")
 	if g := c.Anchor(rule, csT+".OnStart"); g != nil {
-		n, good := 0, 0
+		n, good, whyNot := 0, 0, ""
 		for _, s := range g.CallsTo(cfgx.Named(walT + ".Save")) {
 			n++
-			ok, _ := everyPath(g, s.(ssa.Instruction), func(gm map[string]bool) bool {
+			ok, why := everyPath(g, s.(ssa.Instruction), func(gm map[string]bool) bool {
 				for k := range gm {
 					if !strings.Contains(k, ".Search(") {
 						continue
@@ -808,9 +808,11 @@ func c07R12(c *Ctx) {
 			})
 			if ok {
 				good++
+			} else {
+				whyNot = shorten(why)
 			}
 		}
-		c.R.Ob(rule, "OnStart:marker-only-when-missing", n >= 1 && good == n, c.P.Pos(g.F.Pos()), fname(g), fmt.Sprintf("%d WAL.Save call(s) in OnStart, %d reached only when the marker search hit EOF or found nothing", n, good))
+		c.R.Ob(rule, "OnStart:marker-only-when-missing", n >= 1 && good == n, c.P.Pos(g.F.Pos()), fname(g), fmt.Sprintf("%d WAL.Save call(s) in OnStart, %d reached only when the marker search hit EOF or found nothing; %s", n, good, whyNot))
 	}
 }
 
